@@ -529,3 +529,17 @@ fn replay(_opts: &Opts, d: &Value, acc: &mut Acc) {
         acc.fail(f);
     }
 }
+
+/// libFuzzer entry: one operator, two operands (and sometimes a run of minus signs)
+pub fn fuzz_case(genome: &[u8], acc: &mut Acc) -> Vec<Failure> {
+    let mut g = G::new(genome);
+    let op = *g.pick(OPS);
+    let x = gen_num(&mut g);
+    let y = gen_num(&mut g);
+    let mut fs = check_bin(op, &x, &y, "fuzz", false, acc);
+    if g.chance(64) {
+        let n = 1 + g.below(4) as usize;
+        fs.extend(check_neg_run(&x, n, "fuzz", acc));
+    }
+    fs
+}
